@@ -1505,17 +1505,14 @@ func (t *Terminal) UpdateList(merger *Merger) {
 			t.clearNumLinesCache()
 		} else {
 			// Trimmed by --tail: filter selection by index
+			// Items before minIndex are gone. Note that merger.Length() is the
+			// number of matches, not of loaded items, so it says nothing about
+			// where the loaded range ends.
 			filtered := make(map[int32]selectedItem)
 			minIndex := merger.minIndex
-			maxIndex := minIndex + int32(merger.Length())
 			for k, v := range t.selected {
-				var included bool
-				if maxIndex > minIndex {
-					included = k >= minIndex && k < maxIndex
-				} else { // int32 overflow [==>   <==]
-					included = k >= minIndex || k < maxIndex
-				}
-				if included {
+				// The difference wraps around with the index (int32 overflow)
+				if k-minIndex >= 0 {
 					filtered[k] = v
 				}
 			}
